@@ -116,3 +116,10 @@ claim("C17",
       "the final specification passes the C01/C02 oracles; pickling after 0..3 level-wise steps likewise.",
       "Trusted: as C01; pickle (C boundary) runs on concrete state; packet stream observed by a class-level wrapper of _expand.",
       "CrossHair symbolic execution (pattern D: solver-enumerated interruption points) + z3", "DESIGN.md 2/C17")
+claim("C18",
+      "Bounded symbolic execution: (a) strategy kind and the four setting bits are solver variables - each of the 160 combinations is "
+      "round-tripped through JSON and compared (equality must depend on kind and settings only, incl. instances created from a "
+      "subscripted alias); (b) all 17 packs; (c) the exploration of C01: every returned specification is dumped, reloaded and compared "
+      "(equality, rule per class, each rule form's own round trip, counts, objects, equations); bijections are round-tripped in C12.",
+      "Trusted: as C01; json is a C boundary so all data crossing it is concrete - the solver's part is covering the decision space.",
+      "CrossHair symbolic execution (pattern D: solver-enumerated settings, universes) + z3", "DESIGN.md 2/C18")
